@@ -64,6 +64,31 @@ HARNESSES = {
         "bound": "every u32 (loop-free)",
         "what": "shim/intspecs.rs [K]: i32::try_from(u32) is Ok(x) up to i32::MAX and Err above",
     },
+    "rateslib_get_imm_is_third_wednesday": {
+        "src": "month_facts.rs", "tier": "K", "timeout": 900, "repo_files": ["rust/calendars/dateroll.rs", "rust/calendars/calendar.rs"],
+        "bound": "every (year, month) of 1970-2200 (loop-free)",
+        "what": "C08 on the real compiled code: get_imm(y, m) is a Wednesday with day 15..=21 of that month",
+    },
+    "rateslib_is_imm_exactly_third_wednesday": {
+        "src": "month_facts.rs", "tier": "K", "timeout": 900, "repo_files": ["rust/calendars/dateroll.rs", "rust/calendars/calendar.rs"],
+        "bound": "every date of 1970-2200 (loop-free)",
+        "what": "C08 on the real compiled code: is_imm holds exactly on the third Wednesday",
+    },
+    "rateslib_get_eom_is_last_day": {
+        "src": "month_facts.rs", "tier": "K", "timeout": 900, "repo_files": ["rust/calendars/dateroll.rs", "rust/calendars/calendar.rs"],
+        "bound": "every (year, month) of 1970-2200; the search loop (at most 3 steps) unwound 5 times with unwinding assertions",
+        "what": "C08 on the real compiled code: get_eom(y, m) is the last day of the month",
+    },
+    "rateslib_is_eom_exactly_last_day": {
+        "src": "month_facts.rs", "tier": "K", "timeout": 900, "repo_files": ["rust/calendars/dateroll.rs", "rust/calendars/calendar.rs"],
+        "bound": "every date of 1970-2200; unwind 5 with unwinding assertions",
+        "what": "C08 on the real compiled code: is_eom holds exactly on the last day of the month",
+    },
+    "rateslib_is_leap_year_gregorian": {
+        "src": "month_facts.rs", "tier": "K", "timeout": 600, "repo_files": ["rust/calendars/dateroll.rs"],
+        "bound": "every year 1970-2200 (loop-free)",
+        "what": "C08 on the real compiled code: is_leap_year is the Gregorian rule",
+    },
     "row_swap_swaps_exactly_two_rows": {
         "src": "linalg_swaps.rs", "tier": "Kb", "timeout": 1200, "repo_files": ["rust/dual/linalg/linalg_dual.rs", "rust/dual/linalg/mod.rs"],
         "bound": "3x3 arrays of arbitrary i32, every j < k < 3",
